@@ -12,6 +12,7 @@ RULE = ('seeded type hierarchies: 3-7 named complex types in extension / restric
         'values in lexical variants, every member in place of every head; XSD 1.1: type alternatives (2-3 tests on an '
         'attribute, default alternative, xs:error); a case = (hierarchy, element, variant); distinct non-trivial = distinct '
         '(hierarchy, variant) where xsi:type, nil, a substitute or an alternative is involved')
+RULE += (' ' + 'Fixed values of union types (integer / decimal equal in value space; integer / boolean distinct).')
 ASSUMPTIONS = [
     'Type Derivation OK is read as in the recommendation: the methods used along the chain from the named type to the declared '
     'type must not be in the union of the element\'s disallowed substitutions and the declared type\'s prohibited substitutions',
